@@ -26,6 +26,10 @@ import (
 // to the batch than available space, or if tries to retrieve above the capacity,
 var errSectionOutOfBounds = errors.New("section out of bounds")
 
+// errBloomBitOutOfBounds is returned if the user tried to retrieve a bit vector
+// above the bloom filter's bit length.
+var errBloomBitOutOfBounds = errors.New("bloom bit out of bounds")
+
 // Generator takes a number of bloom filters and generates the rotated bloom bits
 // to be used for batched filtering.
 type Generator struct {
@@ -80,8 +84,8 @@ func (b *Generator) Bitset(idx uint) ([]byte, error) {
 	if b.nextBit != b.sections {
 		return nil, errors.New("bloom not fully generated yet")
 	}
-	if idx >= b.sections {
-		return nil, errSectionOutOfBounds
+	if idx >= types.BloomBitLength {
+		return nil, errBloomBitOutOfBounds
 	}
 	return b.blooms[idx], nil
 }
